@@ -24,7 +24,7 @@ PROPS = {
         "level": "proof",
         "manifest_level": "other",
         "static": [static.memo_args],
-        "trusted": ["conversions.convert (dimension gate, asked unit, Decimal preservation): contract assumed here, see C04"],
+        "trusted": ["conversions._plan_conversion: assumed contract, see C04 (convert's own dimension gate, asked unit and Decimal preservation are verified)"],
         "explanation": "Deductive proof of every obligation except one recorded finding (Quantity.__rtruediv__/post:dimension-inverse, pinned by the test "
                        "suite), hence level 'other' rather than 'proof'. Contracts on _add.._div (Decimal lattice), Quantity * / ** unary + - (dimension homomorphism through the C01 invariant, Decimal "
                        "preservation, left unit), exceptional postconditions for different dimensions. Quantity.__rtruediv__ is a recorded finding.",
@@ -45,24 +45,34 @@ PROPS = {
     },
     "C04": {
         "level": "proof", "manifest_level": "other",
-        "trusted": ["conversions.convert / _plan_conversion and the heuristic planner helpers (_replace_factors, _match_factors, _cancel_factors, _splat, "
-                    "_find_path_recursive): NOT under contract, bounded stand-in only", "WF_R (stored ratio = quotient of sizes) is an assumed invariant: its "
-                    "preservation by equate was attempted and is not completed by the solver"],
-        "explanation": "Partial proof plus bounded stand-in, hence 'other'. Proved: equate stores reciprocal ratios for the unprefixed operands, touches nothing else and "
-                       "forgets memoised plans; Quantity.in_unit delegates to convert (dimension gate, asked unit). Bounded: the planner, against an exact-rational "
-                       "size oracle solved from the intercepted declarations (C04 space). Two recorded findings (dimensionless units, ton of refrigeration).",
+        "static": [static.lean_affine],
+        "trusted": ["conversions._plan_conversion and the heuristic planner helpers behind it (_replace_factors, _match_factors, _cancel_factors, _splat, _find_path, "
+                    "_find_path_recursive, _inline_paths): NOT verified; their contract (contracts/c_conversions.PlanConversion: the plan is well formed, and for "
+                    "offset-free units applying it multiplies by size(start)/size(end)) is ASSUMED and is what the bounded stand-in tests",
+                    "WF_R (stored ratio = quotient of sizes) is an assumed invariant: its preservation by equate was attempted and is not completed by the solver",
+                    "scale ** exponent over the reals is the uninterpreted rpow (A4)"],
+        "explanation": "Partial proof plus bounded stand-in, hence 'other'. Proved on the real source: conversions.convert (dimension gate, asked unit, Decimal preservation, and "
+                       "its two loops compute exactly the fold APL(plan, unprefixed magnitude) - loop invariants over sequences of unknown length, unfolding equations and the "
+                       "affine lemma checked in lemmas/Affine.lean), so the value clause of C04 is a consequence of the planner contract alone; equate stores reciprocal "
+                       "ratios for the unprefixed operands, touches nothing else and forgets memoised plans; Quantity.in_unit delegates to convert. Bounded: the planner, "
+                       "against an exact-rational size oracle solved from the intercepted declarations (C04 space). Two recorded findings (dimensionless units, ton of refrigeration).",
     },
     "C05": {
         "level": "proof", "manifest_level": "other",
-        "trusted": ["convert's loop over the plan and the planner: bounded stand-in only"],
-        "explanation": "Bounded stand-in (linearity, zero, sign, identity, round trip, route independence over the C04 space with int/float/Decimal magnitudes) plus the "
-                       "proved parts it rests on (equate reciprocity, Quantity.unprefixed preserves the ghost value). The loop invariant of convert (result affine in the "
-                       "magnitude) is not under contract: the engine does not model sequences of unknown length.",
+        "static": [static.lean_affine],
+        "trusted": ["conversions._plan_conversion and the planner behind it: assumed contract (see C04), bounded stand-in only",
+                    "magnitudes are real numbers in the proof (A4); the float tolerances of the statement are bounded only"],
+        "explanation": "Lemma functions (contracts/lemma_src.py conv_linear, conv_zero_and_sign, conv_identity, conv_round_trip, conv_route_independent) are proved against the "
+                       "contract of Quantity.in_unit / conversions.convert, which is itself verified on the real source relative to the planner contract: convert's loops "
+                       "compute the fold APL(plan, m), APL is affine in m (lemmas/Affine.lean) and the planner contract fixes its two coefficients for offset-free units. "
+                       "'other' because the planner contract is assumed; the bounded stand-in (linearity, zero, sign, identity, round trip, route independence over the C04 "
+                       "space with int/float/Decimal magnitudes) exercises it on the real planner.",
     },
     "C06": {
         "level": "proof",
-        "trusted": ["conversions.convert: assumed contract (asked unit, Decimal preservation, value = m*size(src)/size(dst) for offset-free units, raises ConversionNotFound "
-                    "exactly when the ghost predicate noconv holds); the bounded stand-in shows where it fails (recorded findings)",
+        "static": [static.lean_affine],
+        "trusted": ["conversions._plan_conversion: assumed contract (well-formed plan; coefficient size(src)/size(dst) for offset-free units; raises ConversionNotFound "
+                    "exactly when the ghost predicate noconv holds); convert itself is verified relative to it; the bounded stand-in shows where the planner fails (recorded findings)",
                     "a*b, a/b, a**n: unit-independence of the physical value is bounded only (size multiplicativity is not axiomatised)"],
         "explanation": "Quantity.__add__/__sub__ return qval(a) +- qval(b) in the left unit, __eq__/__lt__ compare physical values after unprefixing (recursion closed by the "
                        "function's own contract), given the convert contract at the call; unit-independence follows since the posts mention only qval.",
@@ -90,13 +100,15 @@ PROPS = {
     },
     "C10": {
         "level": "proof", "manifest_level": "other",
-        "trusted": ["convert / _find_path_recursive offset handling: bounded (exhaustive over scale pairs x single prefixes) only"],
-        "explanation": "translate is proved to install ratio 1 and offsets -/+ zero; the affine semantics of paths and of convert's loop are checked exhaustively over the 12 "
-                       "ordered scale pairs x registered SI prefixes against closed forms in exact rationals (not proved: sequences are outside the engine).",
+        "static": [static.lean_affine],
+        "trusted": ["_plan_conversion / _find_path_recursive (which hops a path holds, and the offsets they carry): bounded (exhaustive over scale pairs x single prefixes) only"],
+        "explanation": "translate is proved to install ratio 1 and offsets -/+ zero; convert is proved to apply every hop of every plan entry as multiply-by-scale**exponent-then-add-"
+                       "offset in order (loop invariants over the fold APk/APLk, unfolding equations in lemmas/Affine.lean); which hops the planner returns for the 12 ordered scale "
+                       "pairs x registered SI prefixes is checked exhaustively against closed forms in exact rationals.",
     },
     "C12": {
         "level": "proof",
-        "trusted": ["conversions.convert (as in C06)", "functools.total_ordering (A10): modelled as <= is (< or ==), > is (not < and !=), >= is (not <)",
+        "trusted": ["conversions._plan_conversion (assumed contract, as in C04/C06)", "functools.total_ordering (A10): modelled as <= is (< or ==), > is (not < and !=), >= is (not <)",
                     "Measurement / Level / approximately comparisons: bounded stand-in only (the interval comparison exceeds the solver budget)"],
         "explanation": "Lemma functions over the contracts of Quantity.__eq__/__lt__: reflexive, symmetric, trichotomy, <=/>= mirror (each assert an obligation). "
                        "Quantity.__hash__ is a recorded finding.",
@@ -111,7 +123,7 @@ PROPS = {
         "level": "proof",
         "static": [static.memo_args, static.core_state],
         "trusted": ["math.log / ** over the reals with the axioms: log strictly increasing, log x > 0 for x > 1, b**0 = 1, b**e > 0 for b > 0 (A4)",
-                    "conversions.convert (as in C06)", "round trips level<->quantity and Level.__eq__: bounded stand-in only (needs exp/log inverse reasoning)",
+                    "conversions._plan_conversion (assumed contract, as in C04/C06)", "round trips level<->quantity and Level.__eq__: bounded stand-in only (needs exp/log inverse reasoning)",
                     "LogarithmicUnit construction (interning keyed by (logarithm, reference)): not under contract"],
         "explanation": "LogarithmicUnit.level is proved to return (k/prefix) * log_base(quantity/reference) with k from the root-power set, Level.quantify its "
                        "exponential counterpart, and the lemma level_monotone (strictly increasing) is proved from the contract and the monotonicity of log.",
